@@ -663,10 +663,11 @@ impl VisitMut for Normalizer {
                 }
             }
             syn::Expr::While(w) if w.attrs.is_empty() && w.label.is_none() => {
-                if let Some((scrut, pat, false)) = cond_as_test(&w.cond) {
+                if let Some((scrut, pat, neg)) = cond_as_test(&w.cond) {
                     let body = block_expr(w.body.stmts.clone());
                     let brk: syn::Expr = syn::parse_quote!(break);
-                    let inner = mk_match(scrut, vec![arm(pat, body), wild_arm(brk)]);
+                    // `while !matches!(S, P) {B}`  ->  `loop { match S { P => break, _ => {B} } }`
+                    let inner = if neg { mk_match(scrut, vec![arm(pat, brk), wild_arm(body)]) } else { mk_match(scrut, vec![arm(pat, body), wild_arm(brk)]) };
                     replacement = Some(syn::Expr::Loop(syn::ExprLoop { attrs: vec![], label: None, loop_token: Default::default(), body: syn::Block { brace_token: Default::default(), stmts: vec![syn::Stmt::Expr(inner, None)] } }));
                 }
             }
